@@ -83,9 +83,12 @@ pub fn decl_features(d: &Decl) -> Vec<&'static str> {
     };
     match &d.body {
         DeclBody::Struct(r) => rec(r, &mut f),
-        DeclBody::Enum { sorted, variants } => {
+        DeclBody::Enum { sorted, variants, steps } => {
             if *sorted {
                 f.push("sorted constructors");
+            }
+            if !steps.is_empty() {
+                f.push("evolution on the enum itself");
             }
             if variants.iter().any(|v| v.transient) {
                 f.push("transient constructor");
@@ -377,7 +380,7 @@ fn decode_at(pos: u8, to: &Ty, e: &[u8]) -> Result<Val, vmodel::ErrInfo> {
 fn enum_of(t: &Ty) -> (&Arc<Decl>, bool, &Vec<vmodel::Variant>) {
     match t {
         Ty::Adt(d) => match &d.body {
-            DeclBody::Enum { sorted, variants } => (d, *sorted, variants),
+            DeclBody::Enum { sorted, variants, .. } => (d, *sorted, variants),
             _ => panic!("not an enum"),
         },
         _ => panic!("not an enum"),
@@ -434,11 +437,27 @@ pub fn check_c13(c: &EnumCase, acc: &mut Acc, record: bool) -> Verdict {
         Err(e) if e.kind == "SerializingTransientConstructor" && matches!(ref_encode(&c.family[c.from], &as_written), Err(EncErr::SerializingTransientConstructor { .. })) => return Verdict::Skip,
         Err(e) => return Verdict::Fail(format!("cannot encode {}: {e:?}", c.val.brief())),
     };
-    // (a) leading bytes: 00, then the var-u32 constructor index the model assigns
+    // (a) leading bytes: 00, then the var-u32 constructor index the model assigns. An enum with evolution steps of its
+    // own starts with its version and header instead (laid out by the reference encoder); the index opens chunk 0.
     let model_idx = fd.ctor_index(vi) as u32;
     let idx_bytes = vmodel::refcodec::var_u32_bytes(model_idx);
-    if bytes[0] != 0 || bytes[1..1 + idx_bytes.len()] != idx_bytes[..] {
-        return Verdict::Fail(format!("{}::{} is written with leading bytes {} — expected 00 then constructor index {model_idx} ({})", fd.name, var.name, hex(&bytes[..bytes.len().min(6)]), hex(&idx_bytes)));
+    let own_steps = matches!(&fd.body, DeclBody::Enum { steps, .. } if !steps.is_empty());
+    let idx_off = if own_steps {
+        match ref_encode(&c.family[c.from], &as_written) {
+            Ok(f) => match f.sites.iter().find(|s| s.kind == vmodel::refcodec::SiteKind::CtorIdx) {
+                Some(s) if bytes.len() >= s.off && bytes[..s.off] == f.bytes[..s.off] => s.off,
+                _ => return Verdict::Fail(format!("{}::{} is written as {} — the version and evolution header of the enum should be {}", fd.name, var.name, hex(&bytes[..bytes.len().min(24)]), hex(&f.bytes[..f.bytes.len().min(24)]))),
+            },
+            Err(e) => return Verdict::Fail(format!("HARNESS: reference encoder: {e:?}")),
+        }
+    } else {
+        if bytes[0] != 0 {
+            return Verdict::Fail(format!("{}::{} is written with leading byte {:02x} — expected 00", fd.name, var.name, bytes[0]));
+        }
+        1
+    };
+    if bytes.len() < idx_off + idx_bytes.len() || bytes[idx_off..idx_off + idx_bytes.len()] != idx_bytes[..] {
+        return Verdict::Fail(format!("{}::{} is written as {} — expected constructor index {model_idx} ({}) at offset {idx_off}", fd.name, var.name, hex(&bytes[..bytes.len().min(12)]), hex(&idx_bytes)));
     }
     let non_unit = tvars.iter().filter(|v| v.shape != vmodel::Shape::Unit).count() >= 2;
     match c.splice {
@@ -471,7 +490,15 @@ pub fn check_c13(c: &EnumCase, acc: &mut Acc, record: bool) -> Verdict {
         }
         Some(k) => {
             // constructor index rewritten: selection is by index alone
-            bytes.splice(1..1 + idx_bytes.len(), vmodel::refcodec::var_u32_bytes(k));
+            let new_idx = vmodel::refcodec::var_u32_bytes(k);
+            if own_steps && new_idx.len() != idx_bytes.len() {
+                // the header pins the size of chunk 0
+                if record {
+                    acc.exclude("enum with evolution steps of its own: spliced index of another length (chunk size would have to follow)");
+                }
+                return Verdict::Skip;
+            }
+            bytes.splice(idx_off..idx_off + idx_bytes.len(), new_idx);
             let target = td.variant_by_ctor_index(k as usize);
             let class = format!(
                 "{class_base}: spliced index -> {}",
